@@ -29,7 +29,12 @@ class Sender1(metaclass=urwid.MetaSignals):
 
 
 class Sender2(metaclass=urwid.MetaSignals):
+    """alive but falsy, like an empty list walker that sends 'modified'"""
+
     signals = ["a"]
+
+    def __len__(self):
+        return 0
 
 
 class W:
@@ -501,10 +506,65 @@ class Spec:
         return True
 
 
+# ---------------------------------------------------------------------- registration through class hierarchies
+def registration_task(task, ctx: Ctx):
+    """every class shape with <= 2 bases out of {declares 'a', declares 'b', metaclass but no signals, plain mixin} x own signals None/['c'],
+    and every such class subclassed once more (own None/['d']): a name is accepted by connect_signal iff some class of the MRO declares it"""
+    import itertools
+
+    (own1_opts,) = task
+    M = urwid.MetaSignals
+
+    def bases_pool():
+        return {"A": M("A", (), {"signals": ["a"]}), "B": M("B", (), {"signals": ["b"]}), "N": M("N", (), {}), "P": type("P", (), {})}
+
+    for k in (1, 2):
+        for names in itertools.permutations("ABNP", k):
+            for own1 in own1_opts:
+                for own2 in ("-", None, ["d"]):
+                    ctx.count("evaluations")
+                    pool = bases_pool()
+                    case = {"part": "registration", "bases": list(names), "own": own1, "sub": own2}
+                    declared = {n.lower() for n in names if n in "AB"} | set(own1 or ())
+                    try:
+                        ns = {} if own1 is None else {"signals": list(own1)}
+                        cls = M("L1", tuple(pool[n] for n in names), ns)
+                        if own2 != "-":
+                            ns2 = {} if own2 is None else {"signals": list(own2)}
+                            cls = M("L2", (cls,), ns2)
+                            declared |= set(own2 or ())
+                        obj = cls()
+                    except Exception as e:  # noqa: BLE001
+                        ctx.violation("registration", f"C14/registration/class-creation/{exc_site(e)}", case, f"creating the class raised {type(e).__name__}: {e}")
+                        continue
+                    for name in ("a", "b", "c", "d", "zz"):
+                        calls = []
+                        try:
+                            urwid.connect_signal(obj, name, lambda *a, _c=calls: _c.append(a))
+                            ok = True
+                        except NameError:
+                            ok = False
+                        except Exception as e:  # noqa: BLE001
+                            ctx.violation("registration", f"C14/registration/connect-raises/{exc_site(e)}", dict(case, name=name), f"connect_signal raised {type(e).__name__}: {e}")
+                            continue
+                        ctx.obs(case, name, ok)
+                        if ok != (name in declared):
+                            shape = "sub" if own2 != "-" else "direct"
+                            ctx.violation("registration", f"C14/registration/{'rejected-declared' if not ok else 'accepted-undeclared'}/{shape}/bases={k}", dict(case, name=name),
+                                          f"class with bases {names}, own signals {own1}" + (f", subclassed with {own2}" if own2 != '-' else "")
+                                          + f": connect_signal(obj, {name!r}) {'accepted' if ok else 'rejected'}; the classes of the MRO declare {sorted(declared)}")
+                        elif ok:
+                            urwid.emit_signal(obj, name, 7)
+                            if calls != [(7,)]:
+                                ctx.violation("exactly-once", "C14/registration/emit", dict(case, name=name), f"emit after connect called the handler with {calls}")
+                    ctx.distinct("nontrivial", ("reg", names, tuple(own1 or ()), str(own2)))
+
+
 def run(tier, R):
     cap, depth = (3, 5) if tier == "quick" else (4, 5)
     spec = Spec(cap)
     res = R.bfs(spec, depth=depth, max_states=None)
+    R.run_tasks(registration_task, [((None,),), ((["c"],),), ((["a"],),)], recheck=0.0)
     cov = {
         "states": res["states"],
         "transitions": res["transitions"],
@@ -515,7 +575,8 @@ def run(tier, R):
         "rule": f"BFS depth {depth} over connect(32 variants: behaviour x argument style)/connect same fn twice/disconnect by key/by args/"
         f"missing/emit/kill weak arg/drop sender/unregistered name, <= {cap} live connections; state = complete handler lists read from "
         "the senders + liveness; non-trivial = distinct (state, emit) with >= 1 handler call; outcomes = distinct (behaviours at start, "
-        "removed during emit, call sequence)",
+        "removed during emit, call sequence); plus every class shape with <= 2 bases out of {declares a, declares b, metaclass without signals, plain mixin} x own signals x one more "
+        "level of subclassing: connect_signal accepts a name iff a class of the MRO declares it",
         "exhaustive": True,
         "bfs_levels": res["levels"],
         "bound": {"depth": depth, "max_live_connections": cap, "recursion_depth": 1},
@@ -530,6 +591,13 @@ def run(tier, R):
 
 
 def replay(case, ctx):
+    if case.get("part") == "registration":
+        registration_task(((None, ["c"], ["a"]),), ctx)
+        return
+    return _replay(case, ctx)
+
+
+def _replay(case, ctx):
     hist = tuple(tuple(op) for op in case["hist"])
     spec = Spec(4)
     st = spec.build("signals")
